@@ -6,11 +6,15 @@ import (
 	"os"
 
 	"github.com/tetratelabs/wazero/verifharness/cfgreplay"
+	"github.com/tetratelabs/wazero/verifharness/registry"
 )
 
 var cmds = map[string]func([]string){
 	"replay-config":     cfgreplay.Main,
 	"concurrent-config": cfgreplay.Concurrent,
+	"replay-registry":   registry.Replay,
+	"trace-registry":    registry.Trace,
+	"gate-registry":     registry.Gate,
 }
 
 func main() {
